@@ -2,8 +2,7 @@
   C18  Generator lifecycle: start, ordered output, stop, restart, duplex input.
 
   Model: XsModel/Generator.lean.  The nushell pipeline is a parameter (the list of strings it
-  produces / its input chunks); F17 (a pipeline that does not parse or yields a non-string
-  panics the worker thread after `.start`) is a recorded finding and outside these statements.
+  produces / its input chunks; values that are not strings produce nothing), so is its parser.
 -/
 import XsProofs.Generator
 namespace Xs.C18
@@ -22,32 +21,39 @@ theorem lifecycle_source_and_context (t : GTask) (ss : List String) :
   lifecycle_stamped t ss
 
 /-- an accepted spawn starts a lifecycle of a task named by the spawn frame -/
-theorem accepted_spawn (duplexOf : SFrame → Bool) (tbl : List GTask) (f : SFrame) (name c : String)
+theorem accepted_spawn (duplexOf parses : SFrame → Bool) (tbl : List GTask) (f : SFrame) (name c : String)
     (hc : gclassify f.topic = some (name, .spawn)) (hh : gtblHas tbl (f.ctx, name) = none)
-    (hn : f.content = some c) :
-    genStep duplexOf tbl f =
+    (hn : f.content = some c) (hp : parses f = true) :
+    genStep duplexOf parses tbl f =
       (tbl ++ [{ id := f.id, ctx := f.ctx, name := name, duplex := duplexOf f }],
        some (.start { id := f.id, ctx := f.ctx, name := name, duplex := duplexOf f })) :=
-  accepted_spawn_starts duplexOf tbl f name c hc hh hn
+  accepted_spawn_starts duplexOf parses tbl f name c hc hh hn hp
+
+/-- a spawn whose expression does not parse yields exactly one `.spawn.error` naming it -/
+theorem unparsable_yields_one_error (duplexOf parses : SFrame → Bool) (tbl : List GTask) (f : SFrame) (name c : String)
+    (hc : gclassify f.topic = some (name, .spawn)) (hh : gtblHas tbl (f.ctx, name) = none)
+    (hn : f.content = some c) (hp : parses f = false) :
+    genStep duplexOf parses tbl f = (tbl, some (.reject (spawnError name f "Parse error"))) :=
+  unparsable_rejected duplexOf parses tbl f name c hc hh hn hp
 
 /-- after a stop the generator is started again, as the same task (same source_id) -/
-theorem restarted_after_stop (duplexOf : SFrame → Bool) (tbl : List GTask) (f : SFrame) (name : String) (t0 : GTask)
+theorem restarted_after_stop (duplexOf parses : SFrame → Bool) (tbl : List GTask) (f : SFrame) (name : String) (t0 : GTask)
     (hc : gclassify f.topic = some (name, .stop)) (hh : gtblHas tbl (f.ctx, name) = some t0) :
-    genStep duplexOf tbl f = (tbl, some (.start t0)) := stop_restarts duplexOf tbl f name t0 hc hh
+    genStep duplexOf parses tbl f = (tbl, some (.start t0)) := stop_restarts duplexOf parses tbl f name t0 hc hh
 
 /-- a spawn for an already running name yields exactly one `.spawn.error` naming it -/
-theorem running_name_yields_one_error (duplexOf : SFrame → Bool) (tbl : List GTask) (f : SFrame) (name : String)
+theorem running_name_yields_one_error (duplexOf parses : SFrame → Bool) (tbl : List GTask) (f : SFrame) (name : String)
     (t0 : GTask) (hc : gclassify f.topic = some (name, .spawn)) (hh : gtblHas tbl (f.ctx, name) = some t0) :
-    genStep duplexOf tbl f =
+    genStep duplexOf parses tbl f =
       (tbl, some (.reject (spawnError name f "Updating existing generator is not implemented"))) :=
-  running_name_rejected duplexOf tbl f name t0 hc hh
+  running_name_rejected duplexOf parses tbl f name t0 hc hh
 
 /-- a spawn without content yields exactly one `.spawn.error` naming it -/
-theorem missing_content_yields_one_error (duplexOf : SFrame → Bool) (tbl : List GTask) (f : SFrame) (name : String)
+theorem missing_content_yields_one_error (duplexOf parses : SFrame → Bool) (tbl : List GTask) (f : SFrame) (name : String)
     (hc : gclassify f.topic = some (name, .spawn)) (hh : gtblHas tbl (f.ctx, name) = none)
     (hn : f.content = none) :
-    genStep duplexOf tbl f = (tbl, some (.reject (spawnError name f "Missing hash"))) :=
-  missing_content_rejected duplexOf tbl f name hc hh hn
+    genStep duplexOf parses tbl f = (tbl, some (.reject (spawnError name f "Missing hash"))) :=
+  missing_content_rejected duplexOf parses tbl f name hc hh hn
 
 theorem spawn_error_names_the_spawn (name : String) (f : SFrame) (reason : String) :
     metaGet (spawnError name f reason).mdata "source_id" = some (idText f.id) ∧
